@@ -33,9 +33,14 @@ U32(n, le) == Lay(FromNat(n, 4), le)
 RECURSIVE Flat(_)
 Flat(ss) == IF ss = <<>> THEN <<>> ELSE Head(ss) \o Flat(Tail(ss))
 (* concatenation of Len(ss) pieces that all have width w (linear time) *)
-FlatW(ss, w) == [i \in 1..(w * Len(ss)) |-> ss[((i - 1) \div w) + 1][((i - 1) % w) + 1]]
+(* Strict (BV.tla) turns a lazily evaluated function into an explicit tuple, so that the  *)
+(* pieces are computed once and not once per byte                                         *)
+FlatW(ss, w) == LET st == Strict(ss) IN
+                Strict([i \in 1..(w * Len(st)) |-> st[((i - 1) \div w) + 1][((i - 1) % w) + 1]])
 
 Range(f) == {f[x] : x \in DOMAIN f}
+RECURSIVE NulFrom(_, _)
+NulFrom(b, i) == IF i > Len(b) \/ b[i] = 0 THEN i ELSE NulFrom(b, i + 1)      \* first NUL at or after i
 ErrAny == [err |-> "any"]
 E(k) == [err |-> k]
 
@@ -438,7 +443,7 @@ ArPad(fmt, asz) == LET t == 2 * asz IN IF t = 0 THEN 0 ELSE (t - (ArHeaderLen(fm
 EncArSet(a, le) ==
     LET w == IF a.asz \in {1, 2, 4, 8} THEN a.asz ELSE 1
         body == U16(a.ver, le) \o Word(a.info, a.fmt, le) \o <<a.asz, a.seg>>
-                \o [i \in 1..ArPad(a.fmt, w) |-> 170]
+                \o (IF "padbytes" \in DOMAIN a THEN a.padbytes ELSE [i \in 1..ArPad(a.fmt, w) |-> 170])
                 \o FlatW([i \in 1..(2 * Len(a.tuples)) |->
                             Lay(IF i % 2 = 1 THEN a.tuples[(i + 1) \div 2].b ELSE a.tuples[i \div 2].l, le)], w)
                 \o a.tail
@@ -573,4 +578,104 @@ EncNamesUniform(h, le) ==
                 \o <<1, 46, 3, 19, 0, 0, 0>>
                 \o FlatW([i \in 1..n |-> <<1>> \o Lay(h.dies[i], le) \o <<0>>], 6)
     IN InitLen(h.fmt, Len(body), le) \o body
+
+(***************************************************************************)
+(* 8. Decoders for fixed-layout tables of real (corpus) sections.          *)
+(* For recorded real sections there is no construction hint; the abstract  *)
+(* table is read off the bytes by these layout decoders (the inverse of    *)
+(* the encoders above: LookupTrace checks Enc(Dec(bytes)) = bytes), and    *)
+(* the lookups are then judged against the scan of that table.             *)
+(* Counts and offsets of corpus tables are < 2^31.                         *)
+(***************************************************************************)
+RdBV(b, pos, w, le) == Lay(SubSeq(b, pos, pos + w - 1), le)
+RdN(b, pos, w, le) == ToNat(RdBV(b, pos, w, le))
+DecIndex(b, le) ==
+    LET ver == IF RdN(b, 1, 4, le) = 2 THEN 2 ELSE RdN(b, 1, 2, le)
+        sc  == RdN(b, 5, 4, le)
+        uc  == RdN(b, 9, 4, le)
+        N   == RdN(b, 13, 4, le)
+        pi  == 17
+        pr  == pi + 8 * N
+        pc  == pr + 4 * N
+        po  == pc + 4 * sc
+        pz  == po + 4 * uc * sc IN
+    [ver |-> ver,
+     cols |-> Strict([c \in 1..sc |-> RdN(b, pc + 4 * (c - 1), 4, le)]),
+     slots |-> Strict([i \in 1..N |-> [id |-> RdBV(b, pi + 8 * (i - 1), 8, le), row |-> RdBV(b, pr + 4 * (i - 1), 4, le)]]),
+     rows |-> Strict([r \in 1..uc |-> Strict([c \in 1..sc |->
+                 [off |-> RdBV(b, po + 4 * ((r - 1) * sc + c - 1), 4, le),
+                  size |-> RdBV(b, pz + 4 * ((r - 1) * sc + c - 1), 4, le)]])])]
+
+(* initial length at pos: [fmt, len, n (bytes of the length field)] *)
+RdInitLen(b, pos, le) == IF SubSeq(b, pos, pos + 3) = <<255, 255, 255, 255>>
+                         THEN [fmt |-> 64, len |-> RdN(b, pos + 4, 8, le), n |-> 12]
+                         ELSE [fmt |-> 32, len |-> RdN(b, pos, 4, le), n |-> 4]
+RECURSIVE DecArSets(_, _, _)
+DecArSets(b, le, pos) ==
+    IF pos > Len(b) THEN <<>>
+    ELSE LET il  == RdInitLen(b, pos, le)
+             w   == WordSize(il.fmt)
+             p   == pos + il.n
+             asz == b[p + 2 + w]
+             fst == pos + ArHeaderLen(il.fmt) + ArPad(il.fmt, asz)       \* first tuple
+             lst == pos + il.n + il.len - 1                               \* last byte of the set
+             cnt == (lst - fst + 1) \div (2 * asz) IN
+         <<[fmt |-> il.fmt, ver |-> RdN(b, p, 2, le), info |-> RdN(b, p + 2, w, le), asz |-> asz, seg |-> b[p + 3 + w],
+            tuples |-> Strict([i \in 1..cnt |-> [b |-> RdBV(b, fst + 2 * asz * (i - 1), asz, le),
+                                                 l |-> RdBV(b, fst + 2 * asz * (i - 1) + asz, asz, le)]]),
+            tail |-> SubSeq(b, fst + 2 * asz * cnt, lst),
+            padbytes |-> SubSeq(b, pos + ArHeaderLen(il.fmt), fst - 1)]>>
+         \o DecArSets(b, le, lst + 1)
+
+(* name index header and fixed-width arrays (the entry pool is not decoded) *)
+DecNamesLite(b, le) ==
+    LET il == RdInitLen(b, 1, le)
+        w  == WordSize(il.fmt)
+        p  == 1 + il.n
+        cc == RdN(b, p + 4, 4, le)
+        lc == RdN(b, p + 8, 4, le)
+        fc == RdN(b, p + 12, 4, le)
+        B  == RdN(b, p + 16, 4, le)
+        n  == RdN(b, p + 20, 4, le)
+        ab == RdN(b, p + 24, 4, le)
+        au == RdN(b, p + 28, 4, le)
+        pcu == p + 32 + au + AugPad(au)
+        pbk == pcu + w * cc + w * lc + 8 * fc
+        phs == pbk + 4 * B
+        pso == phs + (IF B = 0 THEN 0 ELSE 4 * n)
+        peo == pso + w * n IN
+    [fmt |-> il.fmt, ver |-> RdN(b, p, 2, le), bcount |-> B,
+     cus |-> Strict([i \in 1..cc |-> RdN(b, pcu + w * (i - 1), w, le)]),
+     buckets |-> Strict([i \in 1..B |-> RdN(b, pbk + 4 * (i - 1), 4, le)]),
+     hashes |-> Strict([i \in 1..n |-> RdBV(b, phs + 4 * (i - 1), 4, le)]),
+     stroffs |-> Strict([i \in 1..n |-> RdN(b, pso + w * (i - 1), w, le)]),
+     eoffs |-> Strict([i \in 1..n |-> RdN(b, peo + w * (i - 1), w, le)]),
+     abbrev_size |-> ab, pool_at |-> peo + w * n + ab]
+
+RECURSIVE DecPubEntries(_, _, _, _, _)
+DecPubEntries(b, le, fmt, pos, lst) ==          \* [entries, term, rest (position after the terminator)]
+    LET w == WordSize(fmt) IN
+    IF pos + w - 1 > lst THEN [entries |-> <<>>, term |-> FALSE, rest |-> pos]
+    ELSE LET d == RdN(b, pos, w, le) IN
+         IF d = 0 THEN [entries |-> <<>>, term |-> TRUE, rest |-> pos + w]
+         ELSE LET z == NulFrom(b, pos + w)
+                  r == DecPubEntries(b, le, fmt, z + 1, lst) IN
+              [entries |-> <<[die |-> d, name |-> SubSeq(b, pos + w, z - 1)]>> \o r.entries, term |-> r.term, rest |-> r.rest]
+RECURSIVE DecPubSets(_, _, _)
+DecPubSets(b, le, pos) ==
+    IF pos > Len(b) THEN <<>>
+    ELSE LET il  == RdInitLen(b, pos, le)
+             w   == WordSize(il.fmt)
+             p   == pos + il.n
+             lst == pos + il.n + il.len - 1
+             es  == DecPubEntries(b, le, il.fmt, p + 2 + 2 * w, lst) IN
+         <<[fmt |-> il.fmt, ver |-> RdN(b, p, 2, le), uoff |-> RdN(b, p + 2, w, le), ulen |-> RdN(b, p + 2 + w, w, le),
+            entries |-> es.entries, term |-> es.term, tail |-> IF es.term THEN SubSeq(b, es.rest, lst) ELSE <<>>]>>
+         \o DecPubSets(b, le, lst + 1)
+
+DecTable(b, base, w, le) ==
+    LET n == (Len(b) - base) \div w IN
+    [pre |-> SubSeq(b, 1, base), w |-> w,
+     entries |-> Strict([i \in 1..n |-> RdBV(b, base + w * (i - 1) + 1, w, le)]),
+     tail |-> SubSeq(b, base + w * n + 1, Len(b))]
 =============================================================================
